@@ -21,6 +21,10 @@ pub enum Play {
     Trickle { bytes: Vec<u8>, per_byte_ms: u64 },
     /// write without reading the request first
     RespondWithoutReading { bytes: Vec<u8> },
+    /// read the request, wait, write `bytes`, then hold the connection open without sending more
+    LateThenStall { first_delay_ms: u64, bytes: Vec<u8>, hold_ms: u64 },
+    /// read the request, wait `delay_ms`, then write the whole response and close
+    DelayedRespond { delay_ms: u64, bytes: Vec<u8> },
 }
 
 #[derive(Clone, Debug)]
@@ -142,6 +146,26 @@ impl ScriptedServer {
                                             break;
                                         }
                                     }
+                                }
+                                Play::LateThenStall { first_delay_ms, bytes, hold_ms } => {
+                                    let (raw, p, m) = read_request(&mut s, Duration::from_secs(5));
+                                    rec(raw, p, m);
+                                    std::thread::sleep(Duration::from_millis(first_delay_ms));
+                                    s.write_all(&bytes).ok();
+                                    let end = Instant::now() + Duration::from_millis(hold_ms);
+                                    s.set_read_timeout(Some(Duration::from_millis(25))).ok();
+                                    let mut t = [0u8; 64];
+                                    while Instant::now() < end {
+                                        if let Ok(0) = s.read(&mut t) {
+                                            break;
+                                        }
+                                    }
+                                }
+                                Play::DelayedRespond { delay_ms, bytes } => {
+                                    let (raw, p, m) = read_request(&mut s, Duration::from_secs(5));
+                                    rec(raw, p, m);
+                                    std::thread::sleep(Duration::from_millis(delay_ms));
+                                    s.write_all(&bytes).ok();
                                 }
                                 Play::Trickle { bytes, per_byte_ms } => {
                                     let (raw, p, m) = read_request(&mut s, Duration::from_secs(5));
